@@ -706,11 +706,17 @@ def build_operator(rng, terms):
 def _shots_as_given(rng, shots):
     """the same shots with numpy integer entries now and then (simulators return those)"""
     r = rng.random()
-    if r < 0.8:
+    if r < 0.7:
         return list(shots)
-    if r < 0.9:
+    if r < 0.78:
         return [tuple(np.int64(b) for b in s) for s in shots]
-    return [tuple(np.int8(b) if rng.random() < 0.5 else b for b in s) for s in shots]
+    if r < 0.86:
+        return [tuple(np.int8(b) if rng.random() < 0.5 else b for b in s) for s in shots]
+    # rows of a sample ARRAY of one integer dtype, signed or unsigned, of every width (tuple(row) of what a device
+    # driver or numpy's random generator hands back): arithmetic on unsigned bits must not wrap
+    dt = rng.choice([np.uint8, np.uint8, np.uint16, np.uint32, np.uint64, np.int16, np.int32, np.intc, np.uintp])
+    arr = np.array([list(s) for s in shots], dtype=dt).reshape(len(shots), -1)
+    return [tuple(row) for row in arr]
 
 
 def _desc_shots(shots):
